@@ -195,6 +195,22 @@ CLAIMED["C07"] = dict(
          "tactic cannot decide in 40 s are cross-checked with a float transcription of the model and counted as undecided, never as discharged.",
     technique="Coq proof over a translator-regenerated model (field, Coquelicot derivative, interval witness) + interval-certified differential on the real constraint rows")
 
+CLAIMED["C08"] = dict(
+    text="Proof over a model whose smoothing coefficients are regenerated from the source (leak chain of leak_poly_coeffs_param, constants, "
+         "cubic_spline): an active leak discharges exactly Cd*A*sqrt(2 g p) for p above the 0.1 mm band, slope*p (|.| <= 1e-11 |p|) for "
+         "p <= 0, the band cubic is C0 and C1 with both neighbours and the matched slope is the true derivative of the square-root law "
+         "(Coquelicot); an inactive leak reports 0; the start/end controls are AT TIME conditions, so they fire exactly in the step that "
+         "contains the instant, cut back to it (C04). Ties decided inside coqc: interval -- residual of the real leak row (junction and "
+         "tank) equals q - leak_rate(h - elev) over a head sweep, and reported leak_demand of real runs equals reported_leak with the "
+         "activity decided by the MODEL window [start, end); vm_compute -- the leak-status timeline is on exactly on [start, end) and "
+         "both instants are solved steps. remove_leak / reset / rerun cycles must report zero leak demand. The leak term in the mass "
+         "balance is C01's row check (leak variable present iff active).",
+    ref="DESIGN.md section 5 C08",
+    note="Trusted: Coq kernel; stdlib real axioms + classic (Coquelicot); coq-interval; translator chains.py; row dumper; tracing wrapper. "
+         "Modelled not verified: binary64 rounding (1e-9 relative). The whole-run window theorem is by exact timeline correspondence plus "
+         "the condition lemma, not a closed proof over the scheduler loop.",
+    technique="Coq proof over a translator-regenerated model (field, Coquelicot) + interval-certified differential on real rows and reported leak demands")
+
 NOT_YET = {
 }
 
